@@ -940,6 +940,11 @@ def call_builtin(I, name, args, kwargs, node, fr):
         if isinstance(x, Tup):
             return Num("i", const=len(x.items))
         return Num("i")
+    if name == "slice":
+        from .e3_axes import SliceV
+        if len(args) == 1:
+            return SliceV(None, args[0])
+        return SliceV(args[0] if args else None, args[1] if len(args) > 1 else None)
     if name == "range":
         if len(args) == 1:
             a = dim_to_ax(args[0])
